@@ -66,30 +66,32 @@ Theorem C12_succeeds_refuted :
 Proof. exact mixed_category_refutes. Qed.
 Print Assumptions C12_succeeds_refuted.
 
-(* ... and holds (as far as the category check goes) when equal headers imply
-   equal categories *)
-Theorem C12_succeeds_partial : forall inp out,
+(* ... and when equal headers imply equal categories every result batch passes the
+   category check (the full statement — Create, File.Create, Validate, the sanity
+   checks — is C12_succeeds in Props/C12Full.v) *)
+Theorem C12_category_uniform : forall inp out,
   kinds_consistent inp -> cat_uniform inp -> flatten_spec inp out -> checked out = Some out.
 Proof. exact flatten_category. Qed.
-Print Assumptions C12_succeeds_partial.
+Print Assumptions C12_category_uniform.
 
-(* PARTIAL — validity of the result.  Create/Validate of batches and files is not
-   modelled here (C05 owns it).  What consolidation itself must supply to it is
-   proved: strictly ascending (hence unique) trace numbers in every batch, no
-   empty batch, batch numbers 1..n, and every property of (header, entry) pairs
-   that held in the input — trace number prefixed by the header's ODFI, entry
-   fields valid for the SEC code of the header, ... — still holds. *)
-Theorem C12_valid_partial : forall inp out,
+(* What consolidation itself supplies to Create / Validate: strictly ascending (hence
+   unique) trace numbers in every batch, no empty batch, batch numbers 1..n, and
+   every property of (header, entry) pairs that held in the input — trace number
+   prefixed by the header's ODFI, entry fields valid for the SEC code of the
+   header, ... — still holds.  Validity of the result against the Create models of
+   C05 and the validator model of C03: C12_valid (Props/C12Full.v), C12_batch_arith_valid /
+   C12_file_arith_valid (Props/C12Valid.v). *)
+Theorem C12_wellformed : forall inp out,
   Forall traces_nodup inp -> Forall nonempty inp -> flatten_spec inp out ->
   Forall (fun b => StronglySorted trace_lt (b_entries b) /\ nonempty b) out
   /\ (forall i b, nth_error out i = Some b -> b_num b = (1 + Z.of_nat i)%Z).
 Proof. exact flatten_wellformed. Qed.
-Print Assumptions C12_valid_partial.
+Print Assumptions C12_wellformed.
 
-Theorem C12_valid_pairs_partial : forall inp out (P : bytes * entry -> Prop),
+Theorem C12_pairs_transported : forall inp out (P : bytes * entry -> Prop),
   kinds_consistent inp -> flatten_spec inp out -> Forall P (ids inp) -> Forall P (ids out).
 Proof. exact flatten_pairs. Qed.
-Print Assumptions C12_valid_pairs_partial.
+Print Assumptions C12_pairs_transported.
 
 (* the string order used above is a strict total order *)
 Theorem C12_trace_order : forall a b c,
